@@ -27,6 +27,11 @@ def wf_headers(rng, n=None):
     return hs
 
 
+INTERESTING_HEADERS = [(b"Transfer-Encoding", b"chunked"), (b"transfer-encoding", b"gzip, chunked"), (b"Transfer-Encoding", b"Chunked"), (b"Transfer-Encoding", b"chunked, gzip"),
+                       (b"Transfer-Encoding", b"identity"), (b"TE", b"trailers, chunked"), (b"Trailer", b"X-T"), (b"Content-Encoding", b"gzip"), (b"Content-Encoding", b"deflate, gzip"),
+                       (b"Content-Type", b"text/plain; charset=utf-8"), (b"Connection", b"close"), (b"Connection", b"keep-alive, Upgrade"), (b"Upgrade", b"websocket"),
+                       (b"Expect", b"100-continue"), (b"Content-Range", b"bytes 0-2/3"), (b"Accept-Encoding", b"gzip, deflate"), (b"Content-Location", b"/x")]
+
 BODIES = [b"a\r", b"\r", b"\r\n\r", b"\n", b"x\r\r", b"", b"abc", b"\r\n\r\n", b"GET / HTTP/1.1\r\n\r\n", b"0\r\n\r\n", b"5\r\nhello\r\n0\r\n\r\n", b"Content-Length: 99\r\n", b"\x00\xff\xfe"]
 
 
@@ -60,6 +65,12 @@ class C10:
             with_cl = bool(body) or rng.chance(1, 3)
             if with_cl:
                 hs.insert(rng.below(len(hs) + 1), (gen.randcase(rng, b"Content-Length") if rng.chance(1, 4) else b"Content-Length", str(len(body)).encode()))
+            if with_cl and rng.chance(1, 5):
+                # a well-formed value may carry any other header next to its matching Content-Length — also those that
+                # describe framing, codings and connection handling (sixth round: Transfer-Encoding made to win over
+                # Content-Length on parse, which `generate` does not follow)
+                for _ in range(rng.randint(1, 2)):
+                    hs.insert(rng.below(len(hs) + 1), rng.pick(INTERESTING_HEADERS))
             longest = max([len(a) + 2 + len(b) + 2 for a, b in hs] or [2])
             hl = rng.pick([None, None, 1000 if longest <= 1000 else None, longest, longest + 1, longest + 5])
             if k % 2 == 0:
